@@ -2,6 +2,7 @@ import Wayfind.Proofs.Reachable
 import Wayfind.Model.Errors
 import Wayfind.Generated.Facts
 import Wayfind.Proofs.ParseErrors
+import Wayfind.Proofs.CheckedParser2
 
 /-! # C07 — no input makes the router panic
 The model is written with total list operations (`take`, `drop`, `getElem?`, truncated subtraction), so totality of
@@ -17,10 +18,18 @@ shows that a successful insert only stores constraint names that are registered,
 (4) *The renderer's `replace_range` is in bounds*: the only panic site of `impl Display for TemplateError` is the
 duplicate-parameter caret line; `C07_duplicate_ranges_in_bounds` shows the two ranges the parser reports are disjoint,
 ordered and inside the template.
+(5) *The parser's index arithmetic is in range* (`C07_parser_never_panics`): `Model/CheckedParser.lean` is a second,
+position-based transcription of `src/parser.rs` in which every `input[i]`, every `&input[a..b]` and every `usize`
+subtraction (`cursor - 1`, `start + group - 1`, `end - cursor`, `next_cursor - start`, `&name[1..]`, …) is an explicit
+check that yields `panic`; the theorem shows no check ever fires, for every input and every fuel (loop invariants: the
+range ends inside the input, `group ≤ cursor`, an open parenthesis implies `group ≥ 1`; every recorded parameter starts
+at or before the cursor). The driver runs this transcription next to the list-based model on every `parse` operation
+of every run (class `checked`), and the list-based model is compared with the real crate.
 Status: **partial** — stack depth (recursion proportional to group nesting and tree depth), allocation failure, and
-`usize`/`i32` wrap-around (needs inputs ≥ 2^31 bytes) are outside any model; the bound-checks of the parser's
-cursor arithmetic and of the error renderer are tied by running every operation of every suite under
-`catch_unwind` in a build with overflow checks and debug assertions (oracle C07 = a `panic` line). -/
+`usize`/`i32` wrap-around (needs inputs ≥ 2^31 bytes) are outside any model; the slices of the search (`&path[..n]`,
+each guarded by the adjacent loop condition) and of insert/find/delete (`prefix[0]`, guarded by the non-empty-label
+invariant of (3)) are not transcribed with checks; they, and the error renderer, are tied by running every operation of
+every suite under `catch_unwind` in a build with overflow checks and debug assertions (oracle C07 = a `panic` line). -/
 
 theorem C07_panic_site_ledger : Generated.panicSites = [([115, 114, 99, 47, 112, 97, 114, 115, 101, 114, 46, 114, 115], 11, 0, 14), ([115, 114, 99, 47, 114, 111, 117, 116, 101, 114, 46, 114, 115], 0, 17, 0), ([115, 114, 99, 47, 110, 111, 100, 101, 47, 105, 110, 115, 101, 114, 116, 46, 114, 115], 8, 0, 0), ([115, 114, 99, 47, 110, 111, 100, 101, 47, 102, 105, 110, 100, 46, 114, 115], 3, 0, 0), ([115, 114, 99, 47, 110, 111, 100, 101, 47, 100, 101, 108, 101, 116, 101, 46, 114, 115], 6, 0, 0), ([115, 114, 99, 47, 110, 111, 100, 101, 47, 115, 101, 97, 114, 99, 104, 46, 114, 115], 21, 1, 2), ([115, 114, 99, 47, 110, 111, 100, 101, 47, 111, 112, 116, 105, 109, 105, 122, 101, 46, 114, 115], 0, 0, 0), ([115, 114, 99, 47, 110, 111, 100, 101, 47, 100, 105, 115, 112, 108, 97, 121, 46, 114, 115], 0, 0, 7), ([115, 114, 99, 47, 110, 111, 100, 101, 115, 46, 114, 115], 2, 0, 0), ([115, 114, 99, 47, 101, 114, 114, 111, 114, 115, 47, 116, 101, 109, 112, 108, 97, 116, 101, 46, 114, 115], 0, 0, 0)] := by decide
 
@@ -75,3 +84,17 @@ theorem C07_duplicate_ranges_in_bounds (input t n : Bytes) (f fl s sl : Nat)
   · simp only [TErr.tpl, Option.some.injEq] at htpl
     subst htpl
     exact hin
+
+/-- **`ParsedTemplate::new` never panics.** In the checked, position-based transcription of `src/parser.rs` no index, slice
+or `usize` subtraction is out of range, whatever the input (any bytes, not only UTF-8) -/
+theorem C07_parser_never_panics (input : Bytes) (site : String) : parseC input ≠ .error (.panic site) :=
+  parseC_never_panics input site
+
+/-- the expander alone, on any sub-range that ends inside the input, with any fuel -/
+theorem C07_expander_never_panics (input : Bytes) (fuel start end_ : Nat) (h : end_ ≤ input.length) (site : String) :
+    expandC input fuel start end_ ≠ .error (.panic site) :=
+  expandC_never_panics input fuel start end_ h site
+
+/-- non-vacuity: the checks are live — outside the invariant they do fire (`)` at depth 1 with `cursor = group = 0`) -/
+example : expandLoopC [41] 5 0 1 0 0 1 [[]] = .error (.panic "expand: cursor - 1") := by
+  simp [expandLoopC, getB, subC]
